@@ -572,6 +572,7 @@ def run(ctx):
 
     # ---------------------------------------------------------------- model (rounds over the command index)
     mstate = [{'kwd': 'none', 'rep': '-', 'buf': [l.encode('utf-8') + b'\n' for l in c['lines']], 'ok': True, 'cut': False} for c in cases]
+    ndis = [0]
     if model:
         for j in range(2):
             idx = [i for i, c in enumerate(cases) if len(c['cmds']) > j and mstate[i]['ok']]
@@ -601,6 +602,24 @@ def run(ctx):
             if rc != 0 or len(tout) != len(treqs):
                 res.disagree({'what': 'probe_rstr (tb) failed rc=%d' % rc, 'stderr': err[-800:], 'input': treqs[len(tout):len(tout) + 1]})
                 break
+            # second tie: the MODEL of the matcher (SubstEngineDefs.engine_find, what the composed theorems C14_*_engine and
+            # C14_notbol_* speak about) must give, on every suffix of every addressed line and under both values of
+            # RE_NOTBOL, the answers /repo's rstr_find gave
+            uniq = sorted(set(treqs))
+            rc, eout, err = vlib.run_lines(model, ['ef' + t[2:] for t in uniq], timeout=900)
+            if rc != 0 or len(eout) != len(uniq):
+                res.disagree({'what': 'model driver (ef) failed rc=%d' % rc, 'stderr': err[-800:], 'input': uniq[len(eout):len(eout) + 1]})
+                break
+            tb_of = dict(zip(treqs, tout))
+            res.extra['matcher tables compared (engine_find model vs rstr_find)'] = res.extra.get('matcher tables compared (engine_find model vs rstr_find)', 0) + len(uniq)
+            for t, eo in zip(uniq, eout):
+                if eo.endswith(' cut=0') and tb_of[t].endswith(' cut=0') and eo != tb_of[t] and ndis[0] < 5:
+                    ndis[0] += 1
+                    w = t.split(' ')
+                    res.disagree({'what': 'the model of rstr_make / rstr_find (engine_find) and /repo\'s rstr_find answer differently on a suffix of a line '
+                                          '(format: path, then <offset>.<notbol>=<16 group pairs>)',
+                                  'input': {'pattern': vlib.unhx(w[1]).decode('utf-8', 'replace'), 'ic': int(w[2]), 'line': vlib.unhx(w[3]).decode('utf-8', 'replace')},
+                                  'implementation': tb_of[t], 'model': eo})
             rreqs = []
             for (i, ln), t in zip(tmap, tout):
                 w = t.split(' ')
